@@ -5,16 +5,21 @@ import searchgen as sg
 
 NEED_RG = True
 MANIFEST = dict(
-    text="Coq theorems: MultiLine::run terminates for every input, sink and matcher obeying the find_at contract (the "
-         "advance-by-one rule after an empty match), the search resumes with find_at on the WHOLE input (D6 repaired), and "
-         "the multi-line strategy is only selected when the matcher may match the terminator. The full statement "
-         "(multi_line_run = ml_ref: lines covered by the successive matches, merged blocks, inversion, context) is NOT yet "
-         "proved: it is checked on every run by model = code = executable specification (Spec/MultiLineSpec.v) on generated "
-         "cases with terminator-spanning and left-context-sensitive (anchored) needles. D6, D7 fixed.",
-    note="partial proof: the event-level theorem multiline_eq_spec is tested, not proved; trusted: Coq kernel, extraction, "
-         "driver, harness, scripted matcher mirrors",
-    technique="Coq proof (termination, strategy selection) + extracted-model/implementation/specification correspondence",
-    design="§7 C13")
+    text="Coq theorems (Props/C13.v): multi_line_eq_ref — MultiLine::run delivers exactly the events of the declarative "
+         "multi-line reference ml_ref (lines overlapped by the successive leftmost non-overlapping matches of find_at over "
+         "the WHOLE input, touching/overlapping line ranges merged into one block, inversion = the other lines one by one, "
+         "context/breaks/numbers/offsets by the grep model) for every input, every configuration SearcherBuilder::build can "
+         "produce and every matcher obeying the find_at contract; multi_line_matched_blocks (one matched event per maximal run "
+         "of covered lines; a line is in a block iff some match overlaps it; blocks disjoint, increasing, never adjacent: no "
+         "line twice), multi_line_inverted_lines, multi_line_run_terminates, find_uses_whole_input (D6), "
+         "multi_line_eq_ref_pinned_refuted (D21: the pre-repair sink gave context to the match after the final terminator; "
+         "found by this proof, repaired). Tie to the code on every run: model = code = reference with the scripted matcher "
+         "(terminator-spanning, anchored needles) AND with the real RegexMatcher whose find_at is tabulated over the input "
+         "(look-around at resumption points, \\z, empty matches), plus rg -U --mmap/--no-mmap/stdin on UTF-8/UTF-16 files.",
+    note="trusted: Coq kernel, extraction, driver, harness; regex-automata behind find_at (tabulated, not modelled); "
+         "fill_multi_line_buffer_from_file/_reader are exercised by the CLI oracle only; stopping sinks are C16's theorem",
+    technique="Coq simulation proof (multi-line run = declarative reference) + extracted-model/implementation/reference correspondence incl. tabulated real regex matcher",
+    design="§7 C13, notes/C13.md")
 
 
 def run(ctx):
@@ -44,10 +49,95 @@ def run(ctx):
         if ml and c != r:
             ctx.violation("multi-line search differs from the specification (lines covered by successive find_at matches)",
                           dict(kind=1301, line=line, case=sg.describe(case), code=c, ref=r))
+    regex_cases(ctx, feat)
     cli_strategies(ctx)
     ctx.cov["features"] = feat
     ctx.cov["rule"] = ("random multi-line searcher cases (needles touching/spanning the terminator, anchored needles = "
                        "look-behind); non-trivial = multi-line strategy selected and at least one result event")
+
+
+REGEX_PATTERNS = [
+    "a|\\z", "\\z", "b\\n", "\\n", "a\\nb", "(?m)^b", "\\bb\\nc|a", "\\Bb\\nc|a", "a*", "(?m)$", "(?m)^$", "b\\n+", "\\n\\n",
+    "[ab]\\n?", "a.b", "x*\\z", "\\s+", "(?m)^", "a|\\n\\z", "c\\n|\\z", "\\b", "ab|\\bc\\nd", "foo|\\Bx\\ny", "\\n\\b", "a\\n?\\z",
+    "(?m)a$\\n", "\\A", "[^a]+", "(a|b)\\n(a|b)", "\\r?\\n", "a\\s*\\z", "(?m)^\\n", "b|\\z", "\\w+\\n\\w+", "$",
+]
+# the witnesses of D6 (look-behind at the resumption point) and D21 (context for the match after the final terminator)
+REGEX_CORPUS = [
+    (dict(before=1), "a|\\z", b"a\nb\nc\n"), (dict(before=2, after=1), "a|\\z", b"a\nb\nc\nd\n"), (dict(before=1), "\\z", b"a\nb\n"),
+    (dict(), "a|\\bb\\nc", b"ab\nc\n"), (dict(), "a|\\Bb\\nc", b"ab\nc\n"), (dict(), "ab|\\bc\\nd", b"abc\nd\n"),
+    (dict(), "foo|\\Bx\\ny", b"foox\ny\n"), (dict(before=1, passthru=False, invert=True), "a|\\z", b"a\nb\nc\n"),
+    (dict(passthru=True), "a|\\z", b"a\nb\nc\n"), (dict(after=1), "c\\n|\\z", b"a\nc\nb\n"),
+]
+
+
+def regex_cases(ctx, feat):
+    """the real RegexMatcher under -U semantics: the harness tabulates find_at over the input; the model
+    (multi_line_run) and the reference (ml_ref) run with that table; all three event streams must agree"""
+    rng = ctx.rng
+    n = ctx.count(1500)
+    cases = []
+    for over, pat, inp in REGEX_CORPUS:
+        c = sg._cfg(multi_line=True)
+        c.update(over)
+        cases.append((c, pat, inp, False, None))
+    for _ in range(n):
+        c = sg.gen_cfg(rng, multi_line=True)
+        if c["ltbyte"] not in (10, 0):
+            c["ltbyte"] = 10
+        pat = rng.choice(REGEX_PATTERNS)
+        if c["ltbyte"] == 0:
+            pat = pat.replace("\\n", "\\x00")
+        inp = sg.gen_input(rng, c, max_lines=6, max_len=4)
+        if rng.random() < 0.3:
+            inp = inp.replace(b"x", b"c")
+        reply = (rng.randint(0, 6), rng.choice([1, 2])) if rng.random() < 0.2 else None
+        cases.append((c, pat, inp, rng.random() < 0.2, reply))
+
+    def rv(reply):
+        return "()" if reply is None else vlib.vlist([str(reply[0]), str(reply[1])])
+    lines = [vlib.vlist([sg.cfg_val(c), vlib.vbytes(pat.encode()), vlib.vbytes(inp), vlib.vbool(dot), rv(reply)])
+             for c, pat, inp, dot, reply in cases]
+    co = vlib.code(1302, lines)
+    mlines, idx = [], []
+    for i, ((c, pat, inp, dot, reply), out) in enumerate(zip(cases, co)):
+        v = parse_val(out) if out.startswith("(") else None
+        if v is None:
+            ctx.violation("harness failure " + out[:200], dict(kind=1302, line=lines[i]))
+            continue
+        if v[0] == 0:
+            feat["regex_build_error"] = feat.get("regex_build_error", 0) + 1
+            continue
+        if not v[1]:
+            feat["regex_line_strategy"] = feat.get("regex_line_strategy", 0) + 1
+            continue
+        table = vlib.vlist([("()" if not e else vlib.vlist([str(e[0]), str(e[1])])) for e in v[2]])
+        mlines.append(vlib.vlist([sg.cfg_val(c), table, vlib.vbytes(inp), rv(reply)]))
+        idx.append(i)
+    mo = vlib.model(1303, mlines)
+    for i, ml, m in zip(idx, mlines, mo):
+        c, pat, inp, dot, reply = cases[i]
+        code_res = vlib_to_text(parse_val(co[i])[3])
+        mv = parse_val(m) if m.startswith("(") else None
+        desc = dict(cfg=c, pattern=pat, input=inp.decode("latin1"), dotall=dot, reply=reply)
+        feat["regex_multiline"] = feat.get("regex_multiline", 0) + 1
+        ctx.note_case(lines[i], len(parse_val(co[i])[3][1]) > 2)
+        if mv is None:
+            ctx.violation("model failure " + m[:200], dict(kind=1303, line=ml))
+            continue
+        model_res, ref_res = vlib_to_text(mv[0]), vlib_to_text(mv[1])
+        bad_ref = reply is None and code_res != ref_res
+        if code_res != model_res:
+            ctx.violation("multi-line search with the real regex matcher: model and code disagree",
+                          dict(kind=1302, line=lines[i], model_line=ml, case=desc, code=code_res, model=model_res,
+                               ref=ref_res), nfi=not bad_ref)
+        if bad_ref:
+            ctx.violation("multi-line search with the real regex matcher differs from the specification (lines covered "
+                          "by the successive find_at matches over the whole input)",
+                          dict(kind=1302, line=lines[i], case=desc, code=code_res, ref=ref_res))
+
+
+def vlib_to_text(v):
+    return repr(v)
 
 
 def cli_strategies(ctx):
